@@ -586,6 +586,12 @@ static struct Register {
 			Cfg cc = c; cc.comparable = true;
 			addUnit<ListTarget<PolComparable<ST> > >("C20/list-flat-comparable/single", 0, cc, 4, 5, 0, 0);
 			addUnit<ListTarget<PolComparable<MT> > >("C20/list-flat-comparable/stdmutex", 0, cc, 4, 5, 0, 0);
+			// the same flat programs with the generation counter one step before its wrap: the wrap must behave alike under every policy
+			Cfg cw = c; cw.counterPreset = 1;
+			addUnit<ListTarget<PolFunction<ST> > >("C20/list-wrap-function/single", 0, cw, 4, 5, 0, 0);
+			addUnit<ListTarget<PolFunction<VThreading> > >("C20/list-wrap-function/vthreading", 0, cw, 4, 5, 0, 0);
+			addUnit<ListTarget<PolFunction<SpinT> > >("C20/list-wrap-function/spinlock", 0, cw, 4, 5, 0, 0);
+			addUnit<ListTarget<PolFunction<MT> > >("C20/list-wrap-function/stdmutex", 0, cw, 4, 5, 0, 0);
 			Cfg cn = c; cn.nested = true;
 			addUnit<ListTarget<PolFunction<ST> > >("C20/list-nested-function/single", 0, cn, 3, 4, 1, 1);
 			addUnit<ListTarget<PolFunction<MT> > >("C20/list-nested-function/stdmutex", 0, cn, 3, 4, 1, 1);
@@ -603,7 +609,9 @@ static struct Register {
 #if SEL(19, 1)
 		for(int p = 0; p <= 6; p += 2) {
 			Cfg c; c.K = 3; c.nested = true; c.counterPreset = p;
-			addUnit<ListTarget<PolFunction<VThreading> > >(fmt("C19/list/vmutex/preset%d", p), 1, c, 4, 10, 1, 2);
+			// with a real (non-recursive) mutex: an operation that allocates a node while holding the list mutex locks it again
+			// when that allocation is the one that wraps the counter - under SingleThreading the same program completes
+			addUnit<ListTarget<PolFunction<VThreading> > >(fmt("C19/list/vmutex/preset%d", p), p <= 2 ? 0 : 1, c, 4, 10, 1, 2);
 		}
 #endif
 	}
